@@ -65,6 +65,17 @@ def run(prop, tier, seed, t0, replay):
         return rc_, out_, err_ + logs
     with ThreadPoolExecutor(nproc) as ex:
         outs = list(ex.map(work, range(nproc)))
+    # Windows half, as far as it can run here: process_start of process.windows.c on stubbed Win32 functions
+    # from four threads at once, each with its own handles (ThreadSanitizer build of src/win.c --mt)
+    winbin = build.build_win("tsan")
+    wsc = os.path.join(scratch_root, "win")
+    os.makedirs(wsc, exist_ok=True)
+    we = dict(env)
+    we["TSAN_OPTIONS"] = "halt_on_error=0:log_path=%s/tsan" % wsc
+    wrc, wout, werr = core.run_timed([winbin, "--mt", "0", "1", str(3000 if tier == "quick" else 60000), str(seed)], we, 900)
+    for f in glob.glob(os.path.join(wsc, "tsan*")):
+        werr += open(f, errors="replace").read()
+    win_starts = 0
     shutil.rmtree(scratch_root, ignore_errors=True)
     names = ["children", "bytes_verified", "violations", "strerror_calls", "descriptor_tables_ok", "eof_and_length_ok", "concurrent_starts"]
     obs = {n: 0 for n in names}
@@ -98,6 +109,25 @@ def run(prop, tier, seed, t0, replay):
         elif rc not in (0, 1, 3) and not lib:
             if "ThreadSanitizer" not in err:
                 viols.append(("C20", "C20/mt/crash", "engine died rc=%d: %s" % (rc, err[-500:]), {"seed": seed}, [err[-2000:]]))
+    wlib, wharness = parse_tsan(werr)
+    obs["tsan_reports_in_library"] += len(wlib)
+    obs["tsan_reports_in_harness"] += len(wharness)
+    seen = set()
+    for key, text in wlib:
+        if key not in seen:
+            seen.add(key)
+            viols.append(("C20", "C20/mt/tsan:windows:%s" % key, "ThreadSanitizer report with the racing access in the Windows back-end (run on stubs)", {"seed": seed, "tsan": text[:2000]}, text.splitlines()[:60]))
+    for line in wout.splitlines():
+        f = line.split("\t")
+        if f[0] == "V" and len(f) >= 4:
+            viols.append(("C20", "C20/mt/%s" % f[1], "%s [%s, Windows source on stubs]" % (f[3], f[2]), {"seed": seed, "where": f[2]}, [line[:400]]))
+        elif f[0] == "H":
+            win_starts = int(f[1])
+    obs["windows_concurrent_starts_on_stubs"] = win_starts
+    if wrc == 124:
+        obs["harness_timeouts"] = obs.get("harness_timeouts", 0) + 1
+    elif wrc not in (0, 1) and not wlib and "ThreadSanitizer" not in werr:
+        viols.append(("C20", "C20/mt/crash:windows", "Windows stub engine died rc=%d: %s" % (wrc, werr[-500:]), {"seed": seed}, [werr[-2000:]]))
     obs["distinct_interleavings"] = len(hashes)
     total = {"evaluations": obs["children"], "obs": obs, "inconclusive": 0, "nontrivial_sigs": hashes,
              "samples": [{"scenario": "0: reader thread + writer thread on one child (stdin up to 1 MiB echoed to stdout), 2-8 children at once",
@@ -115,7 +145,8 @@ def run(prop, tier, seed, t0, replay):
     if obs["watchdogs"]:
         extra_inconclusive.append("%d repetitions hit the watchdog without evidence of cross-talk" % obs["watchdogs"])
     mo = {"children": 150 if tier == "quick" else 3000, "distinct_interleavings": 20 if tier == "quick" else 300,
-          "descriptor_tables_ok": 150 if tier == "quick" else 3000, "strerror_calls": 1000000}
+          "descriptor_tables_ok": 150 if tier == "quick" else 3000, "strerror_calls": 1000000,
+          "windows_concurrent_starts_on_stubs": 10000}
     rc = core.conclude(prop, tier, seed, "exploration", total, viols, t0, rule, min_obs=None if replay else mo,
                        assumptions=["ThreadSanitizer only sees synchronisation it intercepts; the helper children are uninstrumented separate processes",
                                     "a repetition that does not finish is a violation only with /proc evidence that a sibling holds the child's stdin pipe; otherwise inconclusive"])
